@@ -679,7 +679,7 @@ Section Level.
           split; [|split; reflexivity].
           rewrite app_nil_r. unfold obsx. cbn [xb_type xb_labels xb_body].
           unfold subsx, subsu. rewrite !afind_mapk, Elk. cbn [option_map].
-          do 2 f_equal. unfold expand_child. cbn [eb_fctx eb_iter].
+          do 2 f_equal. unfold expand_child. cbn [eb_fctx eb_iter eb_marks].
           cbn [forallb clean_item] in Hc. rewrite andb_true_r in Hc.
           apply (IHS p Hin body _ st).
           -- apply fctx_static, H.
